@@ -126,7 +126,14 @@ def run(chk, tier):
         offs = ["m%d" % i for i, m in enumerate(ms) if m["named"] and not m["is_bf"]]
         bfs = ["m%d" % i for i, m in enumerate(ms) if m["named"] and m["is_bf"]]
         est = sum(max(m["size"], m["req"], 1) + 16 for m in ms) + (at or 0) + 16
-        probes.append(LayoutProbe("layout/gen/%d" % k, "y%d" % k, decl, "%s S%d" % (kw, k), offs, bfs, size_hint=min(96, (est + 7) // 8 * 8)))
+        cat = "plain"
+        if pk and any(m["is_bf"] for m in ms) and any(m["req"] for m in ms):
+            cat = "packed-bitfield-alignas"
+        elif pk and any(m["is_bf"] for m in ms):
+            cat = "packed-bitfield"
+        elif pk and any(m["req"] for m in ms):
+            cat = "packed-alignas"
+        probes.append(LayoutProbe("layout/gen/%s/%d" % (cat, k), "y%d" % k, decl, "%s S%d" % (kw, k), offs, bfs, size_hint=min(96, (est + 7) // 8 * 8)))
     for k, (decl, mems) in enumerate(EXTRA_DECLS):
         tag = decl.split("{")[0].replace("typedef", "").replace("__attribute__((packed))", "").replace("__attribute__((aligned(32)))", "").strip()
         if "X8" in decl:
